@@ -22,7 +22,7 @@ Definition pre_ok (d : definition) : bool :=
 Definition suf_ok (d : definition) : bool :=
   match kind_of d with KUnary _ false | KFixApply false => true | _ => false end.
 Definition bin_ok (d : definition) : bool :=
-  match kind_of d with Compile.KBinary _ _ | KList | KLogical _ | KJumpIf _ | KElse | KInfix => true | _ => false end.
+  match kind_of d with Compile.KBinary _ _ | KList | KLogical _ | KJumpIf _ | KElse | KSubexpr | KInfix => true | _ => false end.
 
 Fixpoint rshape (t : rtree) : bool :=
   match t with
@@ -39,22 +39,18 @@ Definition item_ok (it : item) : bool :=
   | _ => true
   end.
 
-Lemma ref_def_ok : forall t, sep_tok t = false ->
+Lemma ref_def_ok : forall t,
   match ref_kind t with
   | KValue => atom_ok (ref_def t) | KPrefix => pre_ok (ref_def t) | KSuffix => suf_ok (ref_def t)
   | KBinary => bin_ok (ref_def t) | _ => true
   end = true.
-Proof. intros t H. destruct t; try reflexivity; discriminate H. Qed.
+Proof. intros t. destruct t; reflexivity. Qed.
 
-Lemma items_of_ok : forall toks i prev sp its, no_separators toks = true ->
+Lemma items_of_ok : forall toks i prev sp its,
   items_of toks i prev sp = Some its -> forallb item_ok its = true.
 Proof.
-  induction toks as [|t r IH]; intros i prev sp its Hns H; cbn [items_of] in H; [injection H as <-; reflexivity|].
-  cbn [no_separators forallb] in Hns. apply andb_true_iff in Hns. destruct Hns as [Hst Hns]. apply negb_true_iff in Hst.
-  fold (no_separators r) in Hns.
-  assert (IH' : forall i prev sp its, items_of r i prev sp = Some its -> forallb item_ok its = true)
-    by (intros; eapply IH; eauto). clear IH. rename IH' into IH.
-  pose proof (ref_def_ok t Hst) as Hd.
+  induction toks as [|t r IH]; intros i prev sp its H; cbn [items_of] in H; [injection H as <-; reflexivity|].
+  pose proof (ref_def_ok t) as Hd.
   destruct (ref_kind t) eqn:Hk; try discriminate H; try (eapply IH; exact H).
   all: destruct (items_of r (S i) _ false) as [rest|] eqn:Hr; [|discriminate H]; injection H as <-;
        rewrite forallb_app; cbn [forallb item_ok]; rewrite (IH _ _ _ _ Hr);
@@ -94,11 +90,11 @@ Proof.
       eapply IH; [exact B | | exact H]. exact A.
 Qed.
 
-Lemma pratt_shape : forall toks R, no_separators toks = true -> pratt toks = Some R -> rshape R = true.
+Lemma pratt_shape : forall toks R, pratt toks = Some R -> rshape R = true.
 Proof.
-  intros toks R Hns H. unfold pratt in H. destruct (items_of toks 0 None false) as [its|] eqn:Hi; [|discriminate].
+  intros toks R H. unfold pratt in H. destruct (items_of toks 0 None false) as [its|] eqn:Hi; [|discriminate].
   destruct (climb (4 * length its + 8) INF None its) as [[t [|c rc]]|] eqn:Hc; try discriminate. injection H as <-.
-  exact (proj1 (climb_shape _ INF None its t [] (items_of_ok _ _ _ _ _ Hns Hi) I Hc)).
+  exact (proj1 (climb_shape _ INF None its t [] (items_of_ok _ _ _ _ _ Hi) I Hc)).
 Qed.
 
 Lemma rshape_shift : forall a t, rshape (shift_rtree a t) = rshape t.
@@ -321,6 +317,14 @@ Proof.
         -- destruct lst as [d'|]; [rewrite count_other; [reflexivity | exact Hlst | rewrite Hk; discriminate] | reflexivity].
         -- rewrite <- Hel'. apply head_good; [rewrite Hel'; intros E; apply app_eq_nil in E; destruct E as [_ E]; exact (Hner E)
                                             | cbn [t_def]; exact Hk | apply Hn0; reflexivity | apply He0; reflexivity ].
+    + (* a sequence `a ; b`: the left value is dropped (UpdateValue), the right one is the result;
+         both sides start with nothing pending when the sequence does *)
+      apply concl_plain; auto;
+        [ unfold is_cond; cbn [t_def]; rewrite Hk; reflexivity
+        | cbn [chain_elems]; rewrite Hk; reflexivity
+        | intros c; cbn [bal]; rewrite Hk;
+          rewrite (child_plain l tail IHl Hsl Hnl Hel Hrl Hdl), (child_plain r tail IHr Hsr Hnr Her Hrr Hdr); reflexivity
+        | intros d' ->; apply count_other; [exact Hlst | rewrite Hk; discriminate] ].
     + (* infix apply *)
       apply concl_plain; auto;
         [ unfold is_cond; cbn [t_def]; rewrite Hk; reflexivity
@@ -477,15 +481,15 @@ Proof.
 Qed.
 
 (* ---- the theorem ---- *)
-Theorem operator_expression_balanced : forall toks R, no_separators toks = true -> pratt toks = Some R ->
+Theorem operator_expression_balanced : forall toks R, pratt toks = Some R ->
   exists root nodes t,
     parse toks = Ok (root, nodes) /\ Compile.tree_of nodes root = Some t /\
     drops_arms t = false /\
     (has_chain_no_else t = false -> has_chain_early_else t = false -> has_reapply_pending t = false ->
      balanced t = true).
 Proof.
-  intros toks R Hns H. destruct (pratt_tree_of toks R H) as (Tn & ns & Hp & Ht & _ & _ & E).
-  pose proof (pratt_shape toks R Hns H) as Hs. pose proof (pratt_leftok toks R H) as Hl.
+  intros toks R H. destruct (pratt_tree_of toks R H) as (Tn & ns & Hp & Ht & _ & _ & E).
+  pose proof (pratt_shape toks R H) as Hs. pose proof (pratt_leftok toks R H) as Hl.
   rewrite E, rshape_shift in Hs. rewrite E, leftok_shift in Hl.
   pose proof (leftok_drops Tn Hs Hl) as Hd.
   exists (nid Tn), ns, (img Tn). split; [exact Hp|]. split; [exact Ht|]. split; [exact Hd|].
